@@ -36,6 +36,7 @@ struct CallRec
     std::uint64_t draws = 0;      // raw outputs drawn by this rank at entry
     std::uint64_t epos = 0;       // absolute position of the (scripted) engine after the last draw
     std::uint64_t last_raw = 0;   // the last raw output before entry (the selector draw for multi-channel)
+    std::uint64_t raws[4] = {0, 0, 0, 0};   // standard engines: the four raw outputs before entry, oldest first
     std::uint32_t off_u = 0;      // arena offsets: random numbers / point (dims entries)
     std::uint32_t off_c = 0;      // coordinates (multi-channel, dims entries)
     std::uint32_t off_d = 0;      // densities written by the map (chan entries), valid if dens_calls
@@ -98,6 +99,7 @@ struct Ctx
     std::map<std::uint64_t, std::uint64_t> forced;   // engine position -> raw value
     std::uint64_t forced_hits = 0;
     std::uint64_t last_epos = 0, last_raw = 0, last_stream = 0;
+    std::uint64_t raw_ring[4] = {0, 0, 0, 0};   // standard engines: the last four raw outputs (slot draws % 4)
 
     // ---- user code side
     std::uint32_t cur_iter = 0;
